@@ -1,6 +1,6 @@
 """C20 - what `log tail` prints reassembles to each task's log, within its filters."""
 import logscen
-THEOREMS = [("Properties.C20", "C20_holds"), ("Properties.C20", "C20_filter_holds")]
+THEOREMS = [("Properties.C20", "C20_holds"), ("Properties.C20", "C20_filter_holds"), ("Properties.C20", "C20_cancel_holds"), ("AsFound.C20", "C20_as_found_refuted")]
 CORRESPONDENCE = "`log tail` output captured during real runs == Model.Reader.mrun (tail_of) and the stored logs"
 LEVEL_NOTE = ("Coq theorem C20_holds: for every interleaving of the tasks' flushes onto the shared connection the output is a sequence of header-tagged blocks; the blocks carrying one task's "
               "header concatenate to exactly what that reader sent, which (listener up) is exactly its compressor bytes; unattached readers send nothing. Partial: TCP and the connection mutex are "
